@@ -209,8 +209,8 @@ EcmaErrors == { <<"#", "N", "U", "L", "L", "!">>, <<"#", "D", "I", "V", "/", "0"
                 <<"#", "G", "E", "T", "T", "I", "N", "G", "_", "D", "A", "T", "A">> }
 
 (* P4: the classification set_value documents, parameterised by the pieces a deviation may change:
-   fold = what the text is compared as (identity in the intended design), errs = the error values,
-   nonfin = whether a literal that is not a finite double is taken as a number all the same *)
+   fold = what the text is compared as (the text itself in the intended design), errs = the error values,
+   special = a non-finite number the text is taken as all the same (NoDec in the intended design: none) *)
 Classify(cs, orc, fold, errs, special) ==
   IF cs = <<>> THEN BlankV
   ELSE IF fold = cTRUE THEN BoolV(TRUE)
@@ -295,9 +295,9 @@ PostGetLazy(cs, p, G(_, _))   == At(cs, p, PGetLazy(cs[p], G))
 PostRemove(cs, p)             == At(cs, p, Absent)                       \* Worksheet::remove_cell
 (* CellValue clone + Cell::set_cell_value: value and formula of p (blank if p does not exist) arrive at q *)
 PostCopyValue(cs, p, q)       == At(cs, q, [cs[p] EXCEPT !.here = TRUE])
-(* Cell clone + Worksheet::set_cell: needs the source cell *)
+(* Cell clone + Worksheet::set_cell: needs the source cell (without one there is nothing to copy) *)
 CanCopyCell(cs, p)            == cs[p].here
-PostCopyCell(cs, p, q)        == At(cs, q, cs[p])
+PostCopyCell(cs, p, q)        == IF cs[p].here THEN At(cs, q, cs[p]) ELSE cs
 
 (* P6: what a cell is after save + load.  A cell without value and formula (these cells carry no style) need not
    be kept; a lazy value is saved as what it resolves to.  Kept out of the contract: a lazy value under a formula
@@ -387,8 +387,9 @@ NumbersExactly ==
      /\ g.k = "num" => Rereads(g.n)
      /\ g.k = "str" => g.t = t
      /\ g.k = "blank" <=> t = <<>>
+SameValue(a, b) == [a EXCEPT !.n = NoBits(@)] = [b EXCEPT !.n = NoBits(@)]
 GuessIdempotent ==
-  \A t \in Texts : LET g == Guess(t, OrcOf(t)) IN Guess(ValueChars(g), g.n) = g
+  \A t \in Texts : LET g == Guess(t, OrcOf(t)) IN SameValue(Guess(ValueChars(g), g.n), g)
 (* resolving a lazy value = set_value of its text, in every reachable cell state *)
 LazyEquiv == \A p \in Pos, t \in Texts :
                PGetLazy(PSetLazy(cells[p], t, OrcOf(t)), Guess) = PSetValue(cells[p], Guess(t, OrcOf(t)))
